@@ -2,6 +2,7 @@ package keysim
 
 import (
 	"bufio"
+	"io"
 	"encoding/json"
 	"fmt"
 	"os"
@@ -121,6 +122,13 @@ func replayOnce(self string, eps []*Episode, timeout time.Duration) ([]core.Viol
 	var res Result
 	if err := json.Unmarshal(outp, &res); err != nil {
 		return nil, fmt.Errorf("replay output: %v", err)
+	}
+	// the process-history oracle needs two processes: this one ran the episodes
+	// as given; the reference is the last episode alone, without its surroundings
+	if last := eps[len(eps)-1]; res.ObsDigest != "" && strings.HasPrefix(last.Kind, "wallet-xmss") {
+		if d, err := obsDigestFresh(self, referenceEpisode(last)); err == nil && d != "" && d != res.ObsDigest {
+			res.Violations = append(res.Violations, core.Violation{Property: "C09", Oracle: "key-depends-on-process-history", Where: "wallet", Detail: "observation digest " + res.ObsDigest + " here, " + d + " in a fresh process that does nothing else", Signature: "key-depends-on-process-history"})
+		}
 	}
 	return res.Violations, nil
 }
@@ -400,6 +408,8 @@ type agg struct {
 	skipped    int
 	byProfile  core.Counter
 	cpuMs      core.Counter
+	obs        map[int]string // wallet episodes: observation digest as seen in the worker
+	refChecked int
 	lost       []string // episodes whose worker died or timed out
 	deadlocks  int      // episodes in which a library call blocked forever
 }
@@ -414,7 +424,7 @@ func Check(c CheckConfig) int {
 	start := time.Now()
 	fmt.Printf("keysim: property=%s tier=%s VERIF_SEED=%d workers=%d tree=%s\n", c.Prop, c.Tier, c.Seed, c.Workers, c.TreeHash)
 	b := NewBatch(c.Prop, c.Tier, c.Seed)
-	a := &agg{faults: core.Counter{}, probes: core.Counter{}, digests: map[string]bool{}, allDigests: map[string]bool{}, others: core.Counter{}, byProfile: core.Counter{}, cpuMs: core.Counter{}}
+	a := &agg{faults: core.Counter{}, probes: core.Counter{}, digests: map[string]bool{}, allDigests: map[string]bool{}, others: core.Counter{}, byProfile: core.Counter{}, cpuMs: core.Counter{}, obs: map[int]string{}}
 	var mu sync.Mutex
 	var wg sync.WaitGroup
 	deadline := int64(0)
@@ -539,6 +549,10 @@ func Check(c CheckConfig) int {
 		}
 	}
 
+	if c.Prop == "C09" {
+		referenceCheck(c, b, a)
+	}
+
 	// report
 	known, err := core.LoadKnown(filepath.Join(c.Root, "known_findings.json"))
 	if err != nil {
@@ -645,6 +659,7 @@ func Check(c CheckConfig) int {
 		"episodes_skipped_by_budget":      a.skipped,
 		"episodes_lost_to_crash_or_timeout": a.lost,
 		"episodes_with_a_call_that_never_returned": a.deadlocks,
+		"wallet_keys_compared_with_a_fresh_process_reference": a.refChecked,
 		"unconfirmed_in_fresh_process":    unconfirmed,
 		"workers":                         c.Workers,
 		"tree_hash":                       c.TreeHash,
@@ -698,6 +713,80 @@ func Check(c CheckConfig) int {
 	return 0
 }
 
+// referenceEpisode: the same wallet episode without anything that happens
+// around the wallet in the process (sibling key, companion wallet, unrelated calls).
+func referenceEpisode(ep *Episode) *Episode {
+	r := *ep
+	r.Sibling, r.Companion, r.Traffic = false, false, false
+	return &r
+}
+
+// obsDigestFresh runs one episode alone in a fresh process and returns its observation digest.
+func obsDigestFresh(self string, ep *Episode) (string, error) {
+	f, err := os.CreateTemp("", "keysim-ref-*.json")
+	if err != nil {
+		return "", err
+	}
+	defer os.Remove(f.Name())
+	json.NewEncoder(f).Encode(&ReplayFile{Episodes: []*Episode{ep}})
+	f.Close()
+	cmd := exec.Command(self, "replay-raw", f.Name())
+	cmd.Stderr = io.Discard
+	outp, err := runWithTimeout(cmd, 30*time.Minute)
+	if err != nil {
+		return "", err
+	}
+	var res Result
+	if err := json.Unmarshal(outp, &res); err != nil {
+		return "", err
+	}
+	return res.ObsDigest, nil
+}
+
+// referenceCheck (C09): a worker process has a history - earlier episodes, and
+// whatever the episode itself does around the wallet. The key the wallet got
+// there must be the key the same creation gives in a process that does nothing
+// else; otherwise recovery elsewhere yields a different wallet.
+func referenceCheck(c CheckConfig, b *Batch, a *agg) {
+	var es []int
+	for e := range a.obs {
+		ep := b.At(e)
+		if ep.Kind != "wallet-xmss" {
+			continue
+		}
+		if ep.Sibling || ep.Companion || ep.Traffic || e%4 == 0 {
+			es = append(es, e)
+		}
+	}
+	sort.Ints(es)
+	var mu sync.Mutex
+	var wg sync.WaitGroup
+	sem := make(chan struct{}, c.Workers)
+	for _, e := range es {
+		e := e
+		wg.Add(1)
+		sem <- struct{}{}
+		go func() {
+			defer wg.Done()
+			defer func() { <-sem }()
+			ep := b.At(e)
+			d, err := obsDigestFresh(c.Self, referenceEpisode(ep))
+			mu.Lock()
+			defer mu.Unlock()
+			if err != nil || d == "" {
+				return
+			}
+			a.refChecked++
+			if d != a.obs[e] {
+				a.viol = append(a.viol, found{e, core.Violation{Property: "C09", Oracle: "key-depends-on-process-history", Where: "wallet",
+					Detail:    "the key this wallet got (public key, address, extended seed, first signatures) differs from the key the same creation gives in a fresh process that does nothing else: recovering it elsewhere yields a different wallet",
+					Signature: fmt.Sprintf("key-depends-on-process-history:h=%d,hash=%d,create=%s,sibling=%v,companion=%v,traffic=%v", ep.Height, ep.Hash, ep.Create, ep.Sibling, ep.Companion, ep.Traffic)}})
+			}
+		}()
+	}
+	wg.Wait()
+}
+
 func lastLines(s string, n int) string {
 	ls := strings.Split(strings.TrimSpace(s), "\n")
 	if len(ls) > n {
@@ -723,6 +812,9 @@ func sumCounter(c core.Counter) int64 {
 
 func (a *agg) add(prop string, e int, r *Result) {
 	a.evals++
+	if r.ObsDigest != "" {
+		a.obs[e] = r.ObsDigest
+	}
 	a.steps += r.Steps
 	a.faults.Merge(r.Faults)
 	a.probes.Merge(r.Probes)
